@@ -271,14 +271,7 @@ def r134(ctx):
                f"onto a header the tracker never validated" + (" (a blank filter header then also disables proof checking)" if half == "1" else ""),
                where=f"{b.file}:{b.line}", sample=f"supplied_prev_headers.{half} vs self.headers[0].{half}")
         # the comparison is made whenever a previous header is remembered: the only way around it is the empty-window edge
-        want = atoms.parse_atom("len(self.headers) == 0")
-        empty_e = set()
-        for sb_ in sorted(fv.live_blocks()):
-            if b.term(sb_).kind != "switch":
-                continue
-            for tg, at in atoms.edge_atoms(fv, sb_):
-                if at is not None and atoms.entails(at, want):
-                    empty_e.add((sb_, tg))
+        empty_e = atoms.known_empty_edges(fv, "self.headers")
         if sites:
             around = fv.reach(0, cut_nodes={x[0] for x in sites}, cut_edges=empty_e)
             skipped = [ln for sb, ln in succ if sb in around]
